@@ -146,7 +146,9 @@ class HttpProtocolHandler(BaseTcpServerHandler[HttpClientConnection]):
         if self.plugin:
             self.writes_teared = await self.plugin.write_to_descriptors(writables)
             if self.writes_teared:
-                return True
+                # Plugin is done (e.g. upstream write failed).  Stop reading but,
+                # just like for teared reads, first flush what client is owed.
+                self.reads_teared = True
         # Read from ready to read sockets if reads have not already teared down
         if not self.reads_teared:
             self.reads_teared = await self.handle_readables(readables)
